@@ -117,7 +117,11 @@ def generate(seed, idx, tier):
                  # on the real directory: handle opened from the path of the
                  # summary file (no filesystem object on it: the library's
                  # default remove is used)
-                 'via_meta_path': rng.random() < 0.5}
+                 'via_meta_path': rng.random() < 0.5,
+                 # the row groups to remove named by descriptors taken from
+                 # *another* handle of the same dataset: the library may
+                 # refuse that (then nothing may have changed) or carry it out
+                 'foreign': rng.random() < 0.15}
         else:
             f = gen_frame_spec(rng, shape, batch)
             o = {'op': kind, 'frame': f}
@@ -374,16 +378,28 @@ def _execute(case, fs, ds, res, cnt, probes, bump, violation, parts, pkinds):
                         break
                     if op['sort_pnames']:
                         collisions += _collisions(pf)
-                    target = [pf.row_groups[i] for i in idxs]
-                    pf.remove_row_groups(
-                        target[0] if op['how'] == 'single' else target,
-                        sort_pnames=op['sort_pnames'],
-                        **({} if D.is_local(fs) else
-                           {'open_with': fs.open, 'remove_with': fs.rm}))
-                    for i in idxs:
-                        for u in per_rg[i]:
-                            del rows[u]
-                    ordered = False
+                    src = D.open_pf(ds, fs) if op.get('foreign') else pf
+                    target = [src.row_groups[i] for i in idxs]
+                    try:
+                        pf.remove_row_groups(
+                            target[0] if op['how'] == 'single' else target,
+                            sort_pnames=op['sort_pnames'],
+                            **({} if D.is_local(fs) else
+                               {'open_with': fs.open, 'remove_with': fs.rm}))
+                    except ValueError:
+                        if not op.get('foreign'):
+                            raise
+                        # refused: the checks below see to it that nothing
+                        # was changed
+                        bump(probes, 'removal_by_foreign_descriptors_refused')
+                    else:
+                        if op.get('foreign'):
+                            bump(probes,
+                                 'removal_by_foreign_descriptors_done')
+                        for i in idxs:
+                            for u in per_rg[i]:
+                                del rows[u]
+                        ordered = False
             except Exception as e:
                 hit = _clobber(fs)
                 if hit:
